@@ -48,7 +48,7 @@ def engines():
                  "deps": e1_hdr + ["e1/cfgs.inc"]} for c in E1_CFGS] +
                [{"src": "e1/%s.cpp" % n, "name": "e1_" + n, "flags": SAN,
                  "deps": ["e1/*.hpp", "common/*.hpp"]}
-                for n in ["main", "props_core", "props_meta", "props_hist", "props_rtti"]],
+                for n in ["main", "props_core", "props_meta", "props_hist", "props_rtti", "props_gen"]],
         "link": SAN + ["-lrapidcheck"],
     }
     return e
@@ -257,6 +257,39 @@ prop("C10", engine="e1", rule=(
     "every registered alias id is used as the dynamic id; non-trivial = "
     "arity >= 2 or a class with >= 2 alias ids or >= 2 updates"),
     quick=dict(cases=1500, size=60), thorough=dict(cases=40000, size=100))
+prop("C12", engine="e1", rule=(
+    "random registries, arity 1..4; round trip: the text written by "
+    "generator::write_static_offsets is parsed and compared position by "
+    "position with the slots and strides update installed; differential: "
+    "twin methods compiled with run-time fillable static_offsets are filled "
+    "with the parsed numbers and must dispatch every tuple like the model "
+    "with the consistency check silent, then each number is perturbed in "
+    "turn and the checked policy must raise static_slot_error / "
+    "static_stride_error before any body runs; non-trivial = a method of "
+    "arity >= 3 (first arity where grouped and interleaved layouts differ)"),
+    quick=dict(cases=4000, size=60), thorough=dict(cases=100000, size=100))
+prop("C13", engine="e1", rule=(
+    "random lattice-biased registries with type_info ids, gaps and "
+    "ambiguities; the text written by generator::encode_dispatch_data is "
+    "parsed (declared sizes non-negative, initializers fit), rebuilt in "
+    "exact-size heap blocks (union and dtbls separately) and decoded by the "
+    "real decode_dispatch_data under ASan in a state emulating a fresh "
+    "process; afterwards every tuple dispatches as the model says and as "
+    "before encoding; non-trivial = a class whose v-table does not start at "
+    "slot 0 or has no entries, and a multi-method"),
+    quick=dict(cases=4000, size=60), thorough=dict(cases=100000, size=100))
+prop("C14", engine="e1", rule=(
+    "stateful over 2..3 policies (rebind / replace / remove compositions: "
+    "checked hash, fast hash, map, no hash, indirect) sharing class ids, "
+    "each with its own methods: interleaved load/unload definition or "
+    "class, update, set-handler, create-virtual_ptr, provoke-error "
+    "operations addressed to one policy; after every operation the snapshot "
+    "of every other settled policy (dispatch of every tuple, next, "
+    "dispatch_data address/size/content, hash parameters and control "
+    "table, v-table lookups, live virtual_ptrs, which handler a provoked "
+    "error reaches) must be unchanged; non-trivial = an update of B between "
+    "two observations of A"),
+    quick=dict(cases=1200, size=60), thorough=dict(cases=30000, size=100))
 prop("C15", engine="e1", rule=(
     "random registry with one class left out, used as a listed base, a "
     "method parameter, a definition parameter (update must report "
